@@ -331,6 +331,16 @@ def run_check(pc: PropCheck, tier: str, seed: int) -> int:
             lines.append(f"VIOLATION property={pc.id} replay={path} no-failing-input-found")
         exit_code = 1
 
+    chk = None
+    if tier == "thorough" and not failed and os.environ.get("VERIF_COQCHK", "1") != "0":
+        chk = common.coqchk(pc.props_file)
+        if chk.get("ok"):
+            std_ok = {x.split(".")[-1] for x in common.STDLIB_AXIOMS_OK}
+            alien = [a for a in chk["other_axioms"] if a.split(".")[-1] not in std_ok
+                     and not a.startswith("Coq.") ]
+            if alien or any(v not in ("<none>",) for v in chk["assumed"].values()):
+                raise Infra("coqchk reports assumptions outside the allow-list: " + json.dumps(chk)[:800])
+
     # ---------------- evidence
     samples = [pc.sample_of(c, r) for c, r in list(zip(cases, runs))[n_corpus:n_corpus + 2]]
     coverage = dict(
@@ -355,6 +365,7 @@ def run_check(pc: PropCheck, tier: str, seed: int) -> int:
         known_findings_seen=sorted(seen_known),
         broken=broken,
         distribution=acc,
+        coqchk=chk,
         implementation_coverage=impl_cov,
         implementation_coverage_note="lines/branches of the anchored implementation files executed while this run's cases ran; module-level and def/class lines executed at import time (before measurement starts) count as missed, so the figures are lower bounds",
         obligations_list=obl_names[:400],
